@@ -468,6 +468,16 @@ pub fn generate(seed: u64, knobs: &Knobs) -> C10Scenario {
         }
     }
 
+    // the nested `.luaurc` (which re-defines the alias for the files below it) may not
+    // exist at first: it is created later, together with a save of the file it governs
+    let mut late_luaurc: Option<(String, Body)> = None;
+    if world.aliases.len() >= 2 && rk.chance(1, 3) {
+        let path = gen::join(&world.aliases[1].dir, ".luaurc");
+        if let Some(pos) = entries.iter().position(|e| e.path == path) {
+            let entry = entries.remove(pos);
+            late_luaurc = Some((entry.path, entry.body));
+        }
+    }
     // open finding D16: with convert_require a required file that appears later does not
     // regenerate its requirers; most runs do not make required files disappear and come back
     let keep_required = world.sourcemap.is_some() && avoid("convert-missing-created");
@@ -491,7 +501,7 @@ pub fn generate(seed: u64, knobs: &Knobs) -> C10Scenario {
     let mut guard = 0;
     while emitted < n_ops && guard < 200 {
         guard += 1;
-        let choice = rh.below(100);
+        let choice = rh.below(104); // 100.. = injected I/O faults (the `_` arm)
         let mut new_ops: Vec<Op> = Vec::new();
         let mut is_removal = false;
         match choice {
@@ -531,6 +541,27 @@ pub fn generate(seed: u64, knobs: &Knobs) -> C10Scenario {
                     path,
                     body: Body::Text(text),
                 });
+            }
+            22..=29 if late_luaurc.is_some() && rh.chance(1, 2) => {
+                // a `.luaurc` appears where none was: the files it governs now resolve the
+                // alias differently (one of them is saved in the same batch, so that it is
+                // processed again - nothing else tells darklua that a new file matters)
+                let (path, body) = late_luaurc.take().unwrap();
+                let dir = gen::parent(&path).to_owned();
+                new_ops.push(Op::Add { path, body });
+                let governed: Vec<usize> = (0..world.sources.len())
+                    .filter(|i| world.sources[*i].use_alias && world.sources[*i].path.starts_with(&format!("{}/", dir)))
+                    .collect();
+                for i in governed {
+                    let mut s = world.sources[i].clone();
+                    s.version += 1;
+                    let body = world.render(&s);
+                    world.sources[i] = s.clone();
+                    new_ops.push(Op::Edit {
+                        path: s.path,
+                        body: Body::Text(body),
+                    });
+                }
             }
             22..=29 if !world.aliases.is_empty() && rh.chance(1, 3) && !avoid("luaurc-edit") => {
                 // the root .luaurc changes what `@lib` means (it now points where the nested
@@ -1029,6 +1060,20 @@ pub fn generate(seed: u64, knobs: &Knobs) -> C10Scenario {
                 let i = rh.below(world.sources.len());
                 new_ops.push(Op::Touch {
                     path: world.sources[i].path.clone(),
+                });
+            }
+            99 if in_place => {
+                // in place: the user puts back the text a source had before (undo): the file
+                // on disk is the processed form of exactly that text, and must be again
+                if world.sources.is_empty() {
+                    continue;
+                }
+                let i = rh.below(world.sources.len());
+                let s = world.sources[i].clone();
+                let body = world.render(&s);
+                new_ops.push(Op::Edit {
+                    path: s.path,
+                    body: Body::Text(body),
                 });
             }
             98 => {
